@@ -179,7 +179,10 @@ pub fn oracle(rec: &Rec) -> Option<String> {
             let dke = (delta - std::f64::consts::LN_2 + (ue + (1.0 - ue) * zeta * zeta).ln_1p()) * (n as f64 - 1.0);
             if rn.is_finite() && rn > 0.0 && gn.is_finite() && gn > 0.0 {
                 for k in 0..n { let rf = raw[k] / rn; if !close(rec.outs[0][k], rf, 1.0, 64.0 + 4.0 * n as f64) { return bad(k, "momentum", rec.outs[0][k], rf); } }
-                let sc = delta.abs() * (n as f64) + (n as f64);
+                // ln_1p(arg) with arg = ue + (1-ue) zeta^2 is ill-conditioned when arg -> -1 (momentum anti-parallel to the gradient, large
+                // step): a rounding difference of n eps in `ue` (summation order of the projection) is amplified by 1/(1+arg)
+                let arg = ue + (1.0 - ue) * zeta * zeta;
+                let sc = delta.abs() * (n as f64) + (n as f64) + (n as f64) * (n as f64) * (1.0 + ue.abs()) / (1.0 + arg).abs();
                 if !close(rec.out_scalars[0], dke, sc, 256.0) { return bad(0, "delta_ke", rec.out_scalars[0], dke); }
                 let norm: f64 = rec.outs[0].iter().map(|x| x * x).sum::<f64>().sqrt();
                 if (norm - 1.0).abs() > 1e-12 { return bad(0, "unit norm", norm, 1.0); }
@@ -195,7 +198,7 @@ pub fn oracle(rec: &Rec) -> Option<String> {
 pub fn main(tier: &str, seed: u64, outdir: &str) {
     let mut cases = Cases::new();
     let mut rep = Report::new("C17");
-    let reps = if tier == "thorough" { 6 } else { 1 };
+    let reps = if tier == "thorough" { 40 } else { 1 };
     let mut distinct = std::collections::HashSet::new();
     rep.notes.push(format!("pulp dispatch on this machine: avx2={} avx512f={} fma={}", is_x86_feature_detected!("avx2"), is_x86_feature_detected!("avx512f"), is_x86_feature_detected!("fma")));
     for n in 0..=130usize {
